@@ -32,6 +32,10 @@ pub fn check_case(cfg: &Config, corpus: &Corpus, texts: &[Vec<char>]) -> (bool, 
     if spec.char_window_size != cfg.charw || spec.type_window_size != cfg.typew || spec.bias != trace.bias {
         return (true, Some(("header".into(), format!("model windows/bias ({}, {}, {}) differ from configuration/learner ({}, {}, {})", spec.char_window_size, spec.type_window_size, spec.bias, cfg.charw, cfg.typew, trace.bias))));
     }
+    // the trainer's quantised classifier is exactly what the learner's raw output dictates
+    if let Some(v) = check_trace_against_learner(&trace) {
+        return (true, Some(v));
+    }
     let weights: HashMap<&VerifFeature, i32> = trace.weights.iter().map(|(f, w)| (f, *w)).collect();
     let pred = match guard(|| Predictor::new(model, false)) {
         Err(p) => return (true, Some(("predictor-panic".into(), format!("Predictor::new panicked on the trained model: {p}")))),
